@@ -31,7 +31,7 @@ OPTIONS = {
     "family": ("glyf_colr_1", ["Fam One", "Z"], "An Emoji Family"),
     "version_major": ("glyf_colr_1", [3, 12], 1),
     "version_minor": ("glyf_colr_1", [7, 42], 0),
-    "upem": ("glyf_colr_1", [1000, 2048], 1024),
+    "upem": ("glyf_colr_1", [1000, 2048, 1480], 1024),
     "ascender": ("glyf_colr_1", [800, 1000], 950),
     "descender": ("glyf_colr_1", [-100, -300], -250),
     "linegap": ("glyf_colr_1", [50, 123], 0),
@@ -416,6 +416,15 @@ def run_single(case):
                 want = ("g_1f600", ["g_1f601_200d_1f3fb"])
         if not ok:
             res["violations"].append(dict(ctx, what=f"option {opt}={val!r} given by {way}: observable is {got!r}, expected {want!r}"))
+        if opt != "clipbox_quantization" and "COLR" in font and font["COLR"].version == 1:
+            # an option that is not given stays at its documented default, which for the clip-box step is 2% of
+            # whatever upem this build ended up with
+            step = round(0.02 * font["head"].unitsPerEm)
+            boxes = observe(font, str(path), "clipbox_quantization", None, b)
+            c["default_clipbox_steps_checked"] = c.get("default_clipbox_steps_checked", 0) + 1
+            off = [bx for bx in boxes if any(e % step for e in bx)]
+            if off or not boxes:
+                res["violations"].append(dict(ctx, what=f"clipbox_quantization not given: clip boxes {boxes} are not all on multiples of the default step {step} (2% of upem {font['head'].unitsPerEm})"))
         res["nontrivial"] = True
         res["key"] = case["id"]
         if opt == "upem" and way == "both":
